@@ -137,7 +137,7 @@ package httpgrpc
 //@ func (*serverStream).setHeader
 //@   locks_only[C05] &s.wmu
 //@   ensures[C03] headers_after_they_were_sent_are_refused: at_lock(s.headersSent) ==> result != nil && !called(toHeaders) && !called("http.ResponseWriter.WriteHeader") && s.headersSent
-//@   ensures[C03] otherwise_added_to_the_reply_headers: !at_lock(s.headersSent) ==> result == nil && calls(toHeaders) <= 1 && (len(md) > 0 ==> calls(toHeaders) == 1)
+//@   ensures[C03] otherwise_added_to_the_reply_headers: !at_lock(s.headersSent) ==> result == nil && calls(toHeaders) <= 1 && (old(len(md)) > 0 ==> calls(toHeaders) == 1)
 //@   assert_call[C03] toHeaders : into_the_reply_headers_unprefixed: arg0 == md && arg1 == lastresult("http.ResponseWriter.Header") && arg2 == ""
 //@   ensures[C03] send_marks_headers_sent: send && !at_lock(s.headersSent) ==> s.headersSent && calls("http.ResponseWriter.WriteHeader") == 1
 //@   ensures[C03] plain_set_sends_nothing: !send ==> !called("http.ResponseWriter.WriteHeader") && s.headersSent == at_lock(s.headersSent)
@@ -145,7 +145,7 @@ package httpgrpc
 //
 //@ func (*serverStream).SetTrailer
 //@   locks_only[C05] &s.wmu
-//@   ensures[C03] appended_after_the_earlier_ones: (len(md) > 0 ==> len(s.tr) == at_lock(len(s.tr)) + 1 && s.tr[len(s.tr) - 1] == md) && (len(md) == 0 ==> (len(s.tr) == at_lock(len(s.tr)) + 1 && s.tr[len(s.tr) - 1] == md) || len(s.tr) == at_lock(len(s.tr)))
+//@   ensures[C03] appended_after_the_earlier_ones: (old(len(md)) > 0 ==> len(s.tr) == at_lock(len(s.tr)) + 1 && s.tr[len(s.tr) - 1] == md) && (old(len(md)) == 0 ==> (len(s.tr) == at_lock(len(s.tr)) + 1 && s.tr[len(s.tr) - 1] == md) || len(s.tr) == at_lock(len(s.tr)))
 //@   ensures[C03] earlier_trailers_kept: forall i int :: 0 <= i && i < at_lock(len(s.tr)) ==> s.tr[i] == at_lock(s.tr[i])
 //@   modifies s.tr, mem("metadata.MD")
 //
